@@ -230,3 +230,9 @@ Proof.
   assert (R : r3 == 1). { rewrite R3. field. split; intro Z; rewrite Z in *; lra. }
   destruct (tp_kind_of p); rewrite R; field.
 Qed.
+
+(* x + c works on the converted values (c in steps of the parent), x += c on v (c in the parameter's own unit): they agree only when the factor is 1 *)
+Lemma inplace_add_differs_refuted : exists p c y1 y2, tp_add p c = Ok y1 /\ tp_values (tp_iadd p c) = Ok y2 /\ ~ y1 == y2.
+Proof.
+  exists (mkTP KDur 3 UWeek 1 UDay 1), 1, 22, 28. repeat split; try (vm_compute; reflexivity). vm_compute. discriminate.
+Qed.
